@@ -16,6 +16,13 @@ type c03mon struct {
 
 var guardedRoutes = map[string][2]bool{ // route → (lock middleware, confirm middleware)
 	"plain": {true, true}, "full": {true, true}, "2fa": {true, true}, "lockonly": {true, false}, "confirmonly": {false, true},
+	"notok-lock": {true, true}, "notok-confirm": {true, true}, "root": {true, true}, "mounted": {true, true},
+}
+
+// guardedTarget reports whether a request path is one of the application routes behind the guards.
+func guardedTarget(s *sim.Sim, target string) bool {
+	p := strings.SplitN(target, "?", 2)[0]
+	return strings.HasPrefix(p, "/protected/") || p == world.PathLockNotOK || p == world.PathConfirmNotOK || p == "/" || p == s.Cfg.Mount+"/app/page"
 }
 
 func (m c03mon) Check(s *sim.Sim, st *sim.Step) []*sim.Violation {
@@ -86,7 +93,7 @@ func (m c03mon) Check(s *sim.Sim, st *sim.Step) []*sim.Violation {
 			}
 		}
 	}
-	if rec.Kind == "http" && !rec.Probe.Ran && strings.HasPrefix(rec.Target, "/protected/") {
+	if rec.Kind == "http" && !rec.Probe.Ran && guardedTarget(s, rec.Target) {
 		if u := rec.Before.Users[rec.SessIn["uid"]]; u != nil {
 			if s.Cfg.Has("lock") && u.Locked.After(now) && rec.Location == world.PathLockNotOK {
 				m.stats.Count("middleware-stopped-locked")
@@ -109,10 +116,10 @@ func (m c03mon) Sig(s *sim.Sim, st *sim.Step) string {
 		pid = subjectOf(s, rec, strings.SplitN(flow, "_", 2)[0])
 	}
 	if flow == "" {
-		if rec.Kind != "http" || !strings.HasPrefix(rec.Target, "/protected/") {
+		if rec.Kind != "http" || !guardedTarget(s, rec.Target) {
 			return ""
 		}
-		flow = "visit:" + strings.SplitN(strings.TrimPrefix(rec.Target, "/protected/"), "?", 2)[0]
+		flow = "visit:" + rec.Method + ":" + strings.SplitN(strings.TrimPrefix(strings.TrimPrefix(rec.Target, s.Cfg.Mount), "/protected/"), "?", 2)[0]
 		pid = rec.SessIn["uid"]
 	}
 	ac := acctClass(s, rec.Before, pid)
@@ -210,11 +217,22 @@ var c03Templates = []sim.Template{
 		}
 		b := s.R.Intn(len(s.Br))
 		sc := []*sim.Action{act("login", b, v, "ok"), act("visit", b, -9, "", "route", "/protected/plain")}
+		everywhere := func() []*sim.Action {
+			var out []*sim.Action
+			for _, rt := range []string{world.PathLockNotOK, world.PathConfirmNotOK + "?from=x", "/", s.Cfg.Mount + "/app/page"} {
+				out = append(out, act("visit", b, -9, "", "route", rt, "method", pickS(s.R, "GET", "GET", "POST", "HEAD")))
+			}
+			return out
+		}
 		if s.Cfg.Has("lock") {
-			sc = append(sc, act("admin_lock", b, v, ""), act("visit", b, -9, "", "route", "/protected/lockonly"), act("visit", b, -9, "", "route", "/protected/plain"), act("admin_unlock", b, v, ""), act("visit", b, -9, "", "route", "/protected/plain"))
+			sc = append(sc, act("admin_lock", b, v, ""), act("visit", b, -9, "", "route", "/protected/lockonly"), act("visit", b, -9, "", "route", "/protected/plain"))
+			sc = append(sc, everywhere()...)
+			sc = append(sc, act("admin_unlock", b, v, ""), act("visit", b, -9, "", "route", "/protected/plain"))
 		}
 		if s.Cfg.Has("confirm") {
-			sc = append(sc, act("admin_startconfirm", b, v, ""), act("visit", b, -9, "", "route", "/protected/confirmonly"), act("visit", b, -9, "", "route", "/protected/full"), act("confirm", b, v, "current"), act("visit", b, -9, "", "route", "/protected/confirmonly"))
+			sc = append(sc, act("admin_startconfirm", b, v, ""), act("visit", b, -9, "", "route", "/protected/confirmonly"), act("visit", b, -9, "", "route", "/protected/full"))
+			sc = append(sc, everywhere()...)
+			sc = append(sc, act("confirm", b, v, "current"), act("visit", b, -9, "", "route", "/protected/confirmonly"))
 		}
 		return sc
 	}},
